@@ -53,4 +53,13 @@ def SealFits (cfg : Cfg) (now : Nat) : Action → Prop
   | .open _ ttl => sealOk cfg now (now + ttl.getD cfg.defaultTtl) = true
   | _ => True
 
+/-- side conditions of one history step: sealing in range, and the 96-bit session-id space is not exhausted -/
+def OpOK {Wire : Type} (cfg : Cfg) (s : Sys Wire) : SysOp → Prop
+  | .call _ _ script _ => (∀ a ∈ script, SealFits cfg s.W.env.now a) ∧ s.W.env.sidCtr + script.length ≤ 256 ^ 12
+  | _ => True
+
+def RunOK {Wire : Type} [DecidableEq Wire] (C : Codec Wire) (cfg : Cfg) (wk : Nat) : Sys Wire → List SysOp → Prop
+  | _, [] => True
+  | s, op :: ops => OpOK cfg s op ∧ RunOK C cfg wk (s.step C cfg wk op) ops
+
 end VgiVerif.C27.Spec
